@@ -107,6 +107,7 @@ theorem reqOk_callbacks {cfg : Cfg} {m : Msg} {s : St} (h : ReqOk s) : ReqOk (ca
   · exact h
 
 def kNone : Kind → Bool := fun _ => false
+def kStore : Kind → Bool := fun k => k = .storePerm
 
 theorem reqOk_capLsFinal {cfg : Cfg} {s : St} (h : NoReqQ s) : ReqOk (capLsFinal cfg s).st := by
   unfold capLsFinal
@@ -131,8 +132,8 @@ theorem reqOk_doCapLs {cfg : Cfg} {args : List Str} {s : St} (h : NoReqQ s) : Re
   split
   · split
     · exact reqOk_of_noReqQ h
-    · exact reqOk_of_noReqQ (noReqQ_of_moves (K := kNone) rfl (ref_addCapabilities _ s) h)
-  · exact reqOk_capLsFinal (noReqQ_of_moves (K := kNone) rfl (ref_addCapabilities _ s) h)
+    · exact reqOk_of_noReqQ (noReqQ_of_moves (K := kStore) (by decide) (ref_addCapabilities _ s (by decide)) h)
+  · exact reqOk_capLsFinal (noReqQ_of_moves (K := kStore) (by decide) (ref_addCapabilities _ s (by decide)) h)
   · exact reqOk_of_noReqQ h
 
 theorem reqOk_doCapNew {cfg : Cfg} {args : List Str} {s : St} (h : NoReqQ s) : ReqOk (doCapNew cfg args s).st := by
@@ -140,7 +141,7 @@ theorem reqOk_doCapNew {cfg : Cfg} {args : List Str} {s : St} (h : NoReqQ s) : R
   split
   · split
     · exact reqOk_of_noReqQ h
-    · have h2 := fun caps => noReqQ_of_moves (K := kNone) rfl (ref_addCapabilities (cfg := cfg) caps s) h
+    · have h2 := fun caps => noReqQ_of_moves (K := kStore) (by decide) (ref_addCapabilities (cfg := cfg) caps s (by decide)) h
       simp only [ok]
       unfold capNewFinal
       split
@@ -229,17 +230,20 @@ theorem payload_feedMsg {cfg : Cfg} {m : Msg} {s : St} (h : s.fastq = [])
 
 /-! ### transfer of the invariants to the reachable states -/
 
-theorem α_drain (s : St) : α (drain s) = { α s with kinds := [], aborts := 0, slowOk := true, evOk := true } := by
+theorem α_drain (s : St) : α (drain s) = { α s with kinds := [], aborts := 0, slowOk := true, evOk := true, joinQ := false } := by
   simp [α, drain]
 
 /-- the abstract state right after `Irc.reset()` / `Irc()` -/
-def freshAbs (cfg : Cfg) (epoch aborts : Nat) (evOk wantedOk : Bool) (pol : List (Str × Str)) (forced : Bool) (sock : Nat) : Abs :=
+def freshAbs (cfg : Cfg) (epoch aborts : Nat) (evOk wantedOk : Bool) (pol : List (Str × Str)) (forced : Bool) (sock : Nat)
+    (conn : Bool) (host : Str) (bad : Bool) : Abs :=
   { fsm := .INIT_CAP_NEGOTIATION, saslAuth := false, afterConnect := false, endCount := 0, epoch := epoch,
     ackSasl := false, kinds := connectKinds cfg, aborts := aborts, acked := false, slowOk := true, evOk := evOk,
-    wantedOk := wantedOk, policies := pol, forced := forced, sock := sock }
+    wantedOk := wantedOk, policies := pol, forced := forced, sock := sock,
+    sent := false, joinQ := false, conn := conn, host := host, bad := bad }
 
 theorem α_initSt (cfg : Cfg) (base : St) :
-    α (initSt cfg base) = freshAbs cfg 0 0 true (α base).wantedOk (α base).policies (α base).forced (α base).sock := by
+    α (initSt cfg base) = freshAbs cfg 0 0 true true (α base).policies (α base).forced (α base).sock
+      (α base).conn (α base).host (α base).bad := by
   have hw := wanted_resetSasl cfg base
   unfold initSt queueConnectMessages transition clearForReset
   have h := tab_init
@@ -249,12 +253,12 @@ theorem α_initSt (cfg : Cfg) (base : St) :
 /-- an invariant of the abstract state that ignores the queue kinds, the abort count and the side flags -/
 structure AbsInv (cfg : Cfg) (I : Abs → Prop) : Prop where
   move : ∀ {K : Kind → Bool} {a b : Abs}, I a → Move cfg K a b → I b
-  fresh : ∀ e n o w p f k, I (freshAbs cfg e n o w p f k)
-  drain : ∀ a, I a → I { a with kinds := [], aborts := 0, slowOk := true, evOk := true }
+  fresh : ∀ e n o w p f k c h b, I (freshAbs cfg e n o w p f k c h b)
+  drain : ∀ a, I a → I { a with kinds := [], aborts := 0, slowOk := true, evOk := true, joinQ := false }
   /-- the invariant does not look at the event bookkeeping … -/
   side : ∀ a n b1 b2, I a → I { a with aborts := n, slowOk := b1, evOk := b2 }
   /-- … and survives the queue being emptied (the driver wrote it to the socket) -/
-  dropKinds : ∀ a b1, I a → I { a with kinds := [], slowOk := b1 }
+  dropKinds : ∀ a b1 b2, I a → I { a with kinds := [], slowOk := b1, joinQ := false, bad := b2 }
 
 theorem AbsInv.moves {cfg : Cfg} {I : Abs → Prop} (inv : AbsInv cfg I) {K : Kind → Bool} {a b : Abs}
     (h : I a) (m : Moves cfg K a b) : I b := by
@@ -266,7 +270,7 @@ theorem AbsInv.reach {cfg : Cfg} {I : Abs → Prop} (inv : AbsInv cfg I) {base s
   induction r with
   | start =>
     show I (α (C08.drain (initSt cfg base)))
-    rw [α_drain, α_initSt]; exact inv.drain _ (inv.fresh _ _ _ _ _ _ _)
+    rw [α_drain, α_initSt]; exact inv.drain _ (inv.fresh _ _ _ _ _ _ _ _ _ _)
   | op o _ ih =>
     cases o with
     | msg m =>
@@ -274,22 +278,22 @@ theorem AbsInv.reach {cfg : Cfg} {I : Abs → Prop} (inv : AbsInv cfg I) {base s
       rw [α_drain]; exact inv.drain _ (inv.moves ih (ref_feedMsg m _))
     | reset =>
       show I (α (C08.drain (ircReset cfg _)))
-      rw [α_drain, α_ircReset]; exact inv.drain _ (inv.fresh _ _ _ _ _ _ _)
+      rw [α_drain, α_ircReset]; exact inv.drain _ (inv.fresh _ _ _ _ _ _ _ _ _ _)
 
 theorem absInv_end (cfg : Cfg) : AbsInv cfg EndInv :=
-  ⟨fun h m => endInv_move h m, fun _ _ _ _ _ _ _ => .inl rfl, fun _ h => h, fun _ _ _ _ h => h, fun _ _ h => h⟩
+  ⟨fun h m => endInv_move h m, fun _ _ _ _ _ _ _ _ _ _ => .inl rfl, fun _ h => h, fun _ _ _ _ h => h, fun _ _ _ h => h⟩
 
 theorem absInv_req (cfg : Cfg) : AbsInv cfg (ReqInv cfg) :=
-  ⟨fun h m => reqInv_move h m, fun _ _ _ _ _ _ _ _ hc => by
+  ⟨fun h m => reqInv_move h m, fun _ _ _ _ _ _ _ _ _ _ _ hc => by
       rcases hc with hc | hc | hc
       · simp [freshAbs, pastNegotiation] at hc
       · simp [freshAbs] at hc
       · simp [freshAbs] at hc,
-   fun _ h => h, fun _ _ _ _ h => h, fun _ _ h => h⟩
+   fun _ h => h, fun _ _ _ _ h => h, fun _ _ _ h => h⟩
 
 theorem absInv_sasl (cfg : Cfg) : AbsInv cfg SaslQ := by
-  refine ⟨fun h m => saslQ_move h m, fun e n o w p f k => ?_, fun a h => ⟨h.1, h.2.1, by simp, h.2.2.2⟩,
-    fun a _ _ _ h => h, fun a _ h => ⟨h.1, h.2.1, by simp, h.2.2.2⟩⟩
+  refine ⟨fun h m => saslQ_move h m, fun e n o w p f k c hh b => ?_, fun a h => ⟨h.1, h.2.1, by simp, h.2.2.2⟩,
+    fun a _ _ _ h => h, fun a _ _ h => ⟨h.1, h.2.1, by simp, h.2.2.2⟩⟩
   refine ⟨by simp [freshAbs], by simp [freshAbs, isSaslState], ?_, by simp [freshAbs]⟩
   intro k hk hs
   rcases connectKinds_mem hk with rfl | rfl <;> simp [Kind.sasl] at hs
@@ -340,7 +344,8 @@ inductive DReach (cfg : Cfg) (base : St) : St → Prop
   | start : DReach cfg base (drvStart cfg (initSt cfg base))
   | run {s : St} (now : Nat) (due : Bool) (lines : List Msg) : DReach cfg base s → DReach cfg base (drvRun cfg now due lines s)
 
-theorem α_flush (s : St) : α (flush s) = α s ∨ α (flush s) = { α s with kinds := [], slowOk := true } := by
+theorem α_flush (s : St) : α (flush s) = α s ∨
+    α (flush s) = { α s with kinds := [], slowOk := true, joinQ := false, bad := (flush s).joinBad } := by
   unfold flush
   split
   · right; simp [α]
@@ -349,9 +354,26 @@ theorem α_flush (s : St) : α (flush s) = α s ∨ α (flush s) = { α s with k
 theorem AbsInv.flush {cfg : Cfg} {I : Abs → Prop} (inv : AbsInv cfg I) {s : St} (h : I (α s)) : I (α (C08.flush s)) := by
   rcases α_flush s with e | e
   · rw [e]; exact h
-  · rw [e]; exact inv.dropKinds _ _ h
+  · rw [e]; exact inv.dropKinds _ _ _ h
 
-theorem AbsInv.feedLines {cfg : Cfg} {I : Abs → Prop} (inv : AbsInv cfg I) (lines : List Msg) {s : St} (h : I (α s)) :
+/-- what an invariant of the abstract state needs in order to hold along every real-driver history -/
+structure DInv (cfg : Cfg) (I : Abs → Prop) : Prop where
+  move : ∀ {K : Kind → Bool} {a b : Abs}, K .side = false → I a → Move cfg K a b → I b
+  side : ∀ a n b1 b2, I a → I { a with aborts := n, slowOk := b1, evOk := b2 }
+  flush : ∀ s : St, I (α s) → I (α (C08.flush s))
+
+/-- the permissions of the driver itself: everything but queueing side messages as if they were lines -/
+def kDriver : Kind → Bool := fun k => k != .side
+
+theorem handlerKinds_side (h : Handler) : handlerKinds h .side = false := by cases h <;> rfl
+
+theorem DInv.moves {cfg : Cfg} {I : Abs → Prop} (inv : DInv cfg I) {K : Kind → Bool} (hK : K .side = false) {a b : Abs}
+    (h : I a) (m : Moves cfg K a b) : I b := by
+  induction m with
+  | refl => exact h
+  | step _ m ih => exact inv.move hK ih m
+
+theorem DInv.feedLines {cfg : Cfg} {I : Abs → Prop} (inv : DInv cfg I) (lines : List Msg) {s : St} (h : I (α s)) :
     I (α (C08.feedLines cfg lines s)) := by
   induction lines generalizing s with
   | nil => exact h
@@ -359,20 +381,23 @@ theorem AbsInv.feedLines {cfg : Cfg} {I : Abs → Prop} (inv : AbsInv cfg I) (li
     unfold C08.feedLines
     simp only
     split
-    · exact inv.moves h (ref_feedMsg m s)
-    · exact ih (inv.moves h (ref_feedMsg m s))
+    · exact inv.moves (handlerKinds_side _) h (ref_feedMsg m s)
+    · exact ih (inv.moves (handlerKinds_side _) h (ref_feedMsg m s))
 
-theorem AbsInv.dreach {cfg : Cfg} {I : Abs → Prop} (inv : AbsInv cfg I) (hr : cfg.realDriver = true) {base s : St}
-    (r : DReach cfg base s) : I (α s) := by
+/-- an invariant that holds for the new Irc object holds along the whole real-driver history -/
+theorem DInv.dreach {cfg : Cfg} {I : Abs → Prop} (inv : DInv cfg I) (hr : cfg.realDriver = true) {base s : St}
+    (h0 : I (α (initSt cfg base))) (r : DReach cfg base s) : I (α s) := by
   induction r with
   | start =>
     unfold drvStart
     apply inv.flush
-    have h0 : I (α (initSt cfg base)) := by rw [α_initSt]; exact inv.fresh _ _ _ _ _ _ _
     have h1 : I (α ({ initSt cfg base with drv := { (initSt cfg base).drv with attempt := (initSt cfg base).drv.attempt + 1, scheduled := false }, ev := [], wire := [] } : St)) := by
       have := inv.side _ 0 (α (initSt cfg base)).slowOk true h0
       simpa [α] using this
-    exact inv.moves (K := fun _ => true) h1 (ref_drvConnect none _ hr rfl)
+    refine inv.moves (K := kDriver) rfl h1 (ref_drvConnect _ hr rfl ?_)
+    show (initSt cfg base).slowq.contains .join = false
+    unfold initSt queueConnectMessages transition clearForReset resetSasl
+    simp only; split <;> rfl
   | run now due lines r0 ih =>
     rename_i s0
     have h0 : I (α ({ s0 with now := now, ev := [], wire := [] } : St)) := by
@@ -381,13 +406,66 @@ theorem AbsInv.dreach {cfg : Cfg} {I : Abs → Prop} (inv : AbsInv cfg I) (hr : 
     have h1 : I (α (drvDue cfg due { s0 with now := now, ev := [], wire := [] })) := by
       unfold drvDue
       split
-      · exact inv.moves (K := fun _ => true) (inv.moves (K := fun _ => true) h0 (ref_event _ _ rfl))
-          (ref_realReconnect false none _ hr (fun _ => rfl))
+      · exact inv.moves (K := kDriver) rfl (inv.moves (K := kDriver) rfl h0 (ref_event _ _ rfl))
+          (ref_realReconnect false none _ hr (fun _ => ⟨rfl, rfl⟩))
       · exact h0
     unfold drvRun
     simp only
     split
-    · exact inv.flush (inv.feedLines lines (inv.flush h1))
+    · exact inv.flush _ (inv.feedLines lines (inv.flush _ h1))
     · exact h1
+
+theorem AbsInv.toDInv {cfg : Cfg} {I : Abs → Prop} (inv : AbsInv cfg I) : DInv cfg I :=
+  ⟨fun _ h m => inv.move h m, inv.side, fun _ h => inv.flush h⟩
+
+theorem AbsInv.dreach {cfg : Cfg} {I : Abs → Prop} (inv : AbsInv cfg I) (hr : cfg.realDriver = true) {base s : St}
+    (r : DReach cfg base s) : I (α s) :=
+  inv.toDInv.dreach hr (by rw [α_initSt]; exact inv.fresh _ _ _ _ _ _ _ _ _ _) r
+
+/-! ### JOINs reach a socket only after Irc.do376 completed on that connection -/
+
+theorem mem_fastq_kind {s : St} {o : Out} (h : o ∈ s.fastq) : o.kind ∈ (α s).kinds := by
+  simp only [α, List.mem_map]; exact ⟨o, h, rfl⟩
+
+/-- `_sendIfMsgs` under the JOIN invariant: nothing is flagged -/
+theorem flush_joinBad {cfg : Cfg} (hr : cfg.realDriver = true) (s : St) (h : JoinInv cfg (α s)) :
+    (flush s).joinBad = s.joinBad := by
+  unfold flush
+  split
+  · rename_i hc
+    simp only
+    by_cases hj : (s.fastq ++ s.slowq).contains Out.join = true
+    · have hmem : Out.join ∈ s.fastq ++ s.slowq := by simpa using hj
+      rcases List.mem_append.mp hmem with hf | hs
+      · exact absurd (mem_fastq_kind hf) h.2
+      · have : s.afterConnect = true := h.1 hr (by simpa [α] using hs) hc
+        simp [this]
+    · have : (s.fastq ++ s.slowq).contains Out.join = false := by simpa using hj
+      rw [this]; simp
+  · rfl
+
+/-- the JOIN invariant together with "nothing flagged so far" -/
+def JoinOk (cfg : Cfg) (b0 : Bool) (a : Abs) : Prop := JoinInv cfg a ∧ a.bad = b0
+
+theorem bad_move {cfg : Cfg} {K : Kind → Bool} {a b : Abs} (m : Move cfg K a b) : b.bad = a.bad := by
+  cases m <;> rfl
+
+theorem dInv_join (cfg : Cfg) (hr : cfg.realDriver = true) (b0 : Bool) : DInv cfg (JoinOk cfg b0) := by
+  refine ⟨fun hK h m => ⟨joinInv_move hK h.1 m, (bad_move m).trans h.2⟩, fun a _ _ _ h => h, fun s h => ?_⟩
+  have hb := flush_joinBad hr s h.1
+  rcases α_flush s with e | e
+  · rw [e]; exact h
+  · rw [e]
+    refine ⟨⟨fun _ hq => by simp at hq, by simp⟩, ?_⟩
+    show (C08.flush s).joinBad = b0
+    rw [hb]; exact h.2
+
+/-! ### STS: no downgrade along real-driver histories -/
+
+theorem dInv_sts (cfg : Cfg) : DInv cfg (StsInv cfg) := by
+  refine ⟨fun _ h m => stsInv_move h m, fun a _ _ _ h => h, fun s h => ?_⟩
+  rcases α_flush s with e | e
+  · rw [e]; exact h
+  · rw [e]; exact h
 
 end C08
